@@ -131,6 +131,7 @@ type opCase struct {
 	MsgLen int    `json:"msglen"` // message / key length where the operation has one
 	Force  int    `json:"force"`  // SM2 signing: derive the digest so that the first accepted nonce is refused (1: r=0, 2: r+k=n, 3: s=0)
 	Chunk  int    `json:"chunk"`  // the source hands out at most this many bytes per Read (0 = whole requests)
+	Flags  int    `json:"flags"`  // flagScratch | flagStutter | flagArgs (reader_test.go)
 	Fault  int    `json:"fault"`  // 0 = fault-free fidelity case; else the fault mode
 	At     int    `json:"at"`     // byte of the main stream that cannot be delivered (fault cases)
 }
@@ -436,8 +437,12 @@ func selfTestCurves() error {
 // selfTestReader checks the scripted source against io.ReadFull semantics.
 func selfTestReader() error {
 	stream := gen.Fill(7, 96)
-	for _, chunk := range []int{0, 7, 16, 31} {
-		s := newScript(stream, chunk, 0, faultNone)
+	for _, chunk := range []int{0, 7, 16, 31, 100 + 0, 100 + 7, 100 + 31} {
+		flags := 0
+		if chunk >= 100 {
+			chunk, flags = chunk-100, flagScratch|flagStutter
+		}
+		s := newScript(stream, chunk, 0, faultNone, flags)
 		got := make([]byte, 96)
 		one := make([]byte, 1)
 		s.Read(one)
@@ -455,8 +460,12 @@ func selfTestReader() error {
 	}
 	for mode := 1; mode <= numFaultModes; mode++ {
 		for at := 0; at <= 64; at++ {
-			for _, chunk := range []int{0, 7} {
-				s := newScript(stream, chunk, at, mode)
+			for _, chunk := range []int{0, 7, 100 + 0, 100 + 31} {
+				flags := 0
+				if chunk >= 100 {
+					chunk, flags = chunk-100, flagScratch|flagStutter
+				}
+				s := newScript(stream, chunk, at, mode, flags)
 				buf := make([]byte, 32)
 				var err error
 				n := 0
